@@ -47,7 +47,9 @@ def gen_nodes(rng):
             if k == "zip":
                 nd["literals"] = []
             if k == "combine_latest":
-                nd["emit_on"] = None if rng.random() < 0.6 else sorted(rng.sample(range(len(ups)), rng.randint(1, len(ups))))
+                nd["emit_on"] = None if rng.random() < 0.5 else sorted(rng.sample(range(len(ups)), rng.choice([1, 1, 2, len(ups)])))
+                if nd["emit_on"] is not None:
+                    nd["emit_on_form"] = rng.choice(["list", "int", "stream", "streams", "mixed"] if len(nd["emit_on"]) == 1 else ["list", "streams", "mixed"])
             nodes.append(nd)
         else:
             nodes.append({"kind": "sink", "mode": "sync", "f": ["id"], "ups": [rng.choice(cands)]})
@@ -334,6 +336,15 @@ CORPUS = [
              {"op": "disconnect", "up": 1, "down": 3}, {"op": "links"}, {"op": "connect", "up": 2, "down": 3}, {"op": "links"},
              {"op": "emit", "node": 2, "val": 3, "md": []}, {"op": "links"}, {"op": "emit", "node": 2, "val": 4, "md": []}, {"op": "links"},
              {"op": "emit", "node": 0, "val": 5, "md": []}, {"op": "links"}]},
+    # emit_on given as the bare index 0 (falsy): after connecting a third input the node still emits on input 0 only
+    {"mode": "sync", "nodes": [{"kind": "source", "ups": []}, {"kind": "source", "ups": []}, {"kind": "source", "ups": []},
+                               {"kind": "combine_latest", "ups": [0, 1], "emit_on": [0], "emit_on_form": "int"},
+                               {"kind": "sink", "mode": "sync", "f": ["id"], "ups": [3]}],
+     "ops": [{"op": "emit", "node": 0, "val": 1, "md": []}, {"op": "links"}, {"op": "emit", "node": 1, "val": 2, "md": []}, {"op": "links"},
+             {"op": "connect", "up": 2, "down": 3}, {"op": "links"}, {"op": "emit", "node": 2, "val": 3, "md": []}, {"op": "links"},
+             {"op": "emit", "node": 1, "val": 4, "md": []}, {"op": "links"}, {"op": "emit", "node": 0, "val": 5, "md": []}, {"op": "links"},
+             {"op": "disconnect", "up": 1, "down": 3}, {"op": "links"}, {"op": "emit", "node": 2, "val": 6, "md": []}, {"op": "links"},
+             {"op": "emit", "node": 0, "val": 7, "md": []}, {"op": "links"}]},
     # recorded finding: removing the only empty input of a zip leaves it stuck
     {"mode": "sync", "nodes": [{"kind": "source", "ups": []}, {"kind": "source", "ups": []}, {"kind": "source", "ups": []},
                                {"kind": "zip", "ups": [0, 1, 2], "literals": []}, {"kind": "sink", "mode": "sync", "f": ["id"], "ups": [3]}],
